@@ -215,16 +215,143 @@ func checkpointKey(c *core.Ctx) {
 	// pickSuffixDfs: slot of exactly the string that is returned, accepted only if judge says so
 	dinfo := dfs.Pkg.TypesInfo
 	g := cfgq.Of(c.Program, dfs)
-	as, bd := pat.Stmt("_slot, _err = _get(_cand)").Find(dinfo, dfs.Decl.Body, nil)
-	if as == nil || core.CalleeFunc(dinfo, as.(*ast.AssignStmt).Rhs[0].(*ast.CallExpr)) != getSlot.Obj {
-		c.Undecidedf("R4.range", "pickSuffixDfs/slot-of-candidate", dfs.Decl.Pos(), "cannot find `slot, err := redis.GetSlot(candidate)`")
-	} else {
-		var judgeParam *ast.Ident
-		for _, f := range dfs.Decl.Type.Params.List {
-			if _, ok := dinfo.TypeOf(f.Type).(*types.Signature); ok && len(f.Names) == 1 {
-				judgeParam = f.Names[0]
+	funcParam := func(fn *core.Fn, o types.Object) bool { // o is a func-typed parameter of fn
+		ps := fn.Obj.Type().(*types.Signature).Params()
+		for i := 0; i < ps.Len(); i++ {
+			if _, isF := ps.At(i).Type().Underlying().(*types.Signature); isF && types.Object(ps.At(i)) == o {
+				return true
 			}
 		}
+		return false
+	}
+	// judged: fact f of function `in` tells that the range predicate handed to
+	// `in`, applied to the slot GetSlot computed for cand, returned `sense`;
+	// one level of same-package predicate helper is followed.
+	var judged func(in *core.Fn, f cfgq.Fact, depth int) (cand ast.Expr, sense, ok bool)
+	judged = func(in *core.Fn, f cfgq.Fact, depth int) (ast.Expr, bool, bool) {
+		call, isCall := ast.Unparen(f.Expr).(*ast.CallExpr)
+		if !isCall {
+			return nil, false, false
+		}
+		if o := objOf(dinfo, call.Fun); o != nil && funcParam(in, o) && len(call.Args) == 1 {
+			slot := objOf(dinfo, strip(dinfo, call.Args[0]))
+			var cand ast.Expr
+			writes := 0
+			ast.Inspect(in.Decl.Body, func(n ast.Node) bool {
+				switch as := n.(type) {
+				case *ast.AssignStmt:
+					for _, l := range as.Lhs {
+						if slot != nil && objOf(dinfo, l) == slot {
+							writes++
+						}
+					}
+					if len(as.Rhs) == 1 && len(as.Lhs) >= 1 && slot != nil && objOf(dinfo, as.Lhs[0]) == slot {
+						if gc, ok := ast.Unparen(as.Rhs[0]).(*ast.CallExpr); ok && core.CalleeFunc(dinfo, gc) == getSlot.Obj && len(gc.Args) == 1 {
+							cand = gc.Args[0]
+						}
+					}
+				case *ast.IncDecStmt:
+					if slot != nil && objOf(dinfo, as.X) == slot {
+						writes++
+					}
+				}
+				return true
+			})
+			if cand == nil || writes != 1 {
+				return nil, false, false
+			}
+			return cand, f.Val, true
+		}
+		hfn := core.CalleeFunc(dinfo, call)
+		if depth > 0 || hfn == nil || hfn.Pkg() != in.Obj.Pkg() || hfn == in.Obj {
+			return nil, false, false
+		}
+		hf := c.FnOf(hfn)
+		ps := hfn.Type().(*types.Signature).Params()
+		if hf == nil || hf.Decl.Body == nil || ps.Len() != len(call.Args) {
+			return nil, false, false
+		}
+		hg := cfgq.Of(c.Program, hf)
+		var hc ast.Expr
+		var hs, have bool
+		agree := func(cd ast.Expr, sn bool) bool {
+			if have && (sn != hs || !pat.Same(dinfo, strip(dinfo, cd), strip(dinfo, hc))) {
+				return false
+			}
+			hc, hs, have = cd, sn, true
+			return true
+		}
+		for _, p := range hg.Points(func(n ast.Node) bool { _, ok := n.(*ast.ReturnStmt); return ok }) {
+			r := p.Node().(*ast.ReturnStmt)
+			if len(r.Results) != 1 {
+				return nil, false, false
+			}
+			if tv := dinfo.Types[r.Results[0]]; tv.Value != nil {
+				if isTrue(dinfo, r.Results[0]) != f.Val {
+					continue
+				}
+				// a constant verdict: every way to it must have asked the predicate
+				var cd ast.Expr
+				var sn bool
+				ok, _ := onlyVia(hg, p, func(x cfgq.Fact) bool {
+					c1, s1, k := judged(hf, x, depth+1)
+					if k {
+						cd, sn = c1, s1
+					}
+					return k
+				})
+				if !ok || cd == nil || !agree(cd, sn) {
+					return nil, false, false
+				}
+				continue
+			}
+			found := false
+			for _, x := range cfgq.Facts(r.Results[0], f.Val) {
+				if c1, s1, k := judged(hf, x, depth+1); k {
+					if !agree(c1, s1) {
+						return nil, false, false
+					}
+					found = true
+				}
+			}
+			if !found {
+				return nil, false, false
+			}
+		}
+		if !have {
+			return nil, false, false
+		}
+		// back to the caller's terms: the helper's candidate and predicate are parameters
+		var cand ast.Expr
+		judgeOK := false
+		for i := 0; i < ps.Len(); i++ {
+			if objOf(dinfo, strip(dinfo, hc)) == types.Object(ps.At(i)) {
+				cand = call.Args[i]
+			}
+			if _, isF := ps.At(i).Type().Underlying().(*types.Signature); isF {
+				judgeOK = funcParam(in, objOf(dinfo, call.Args[i]))
+			}
+		}
+		if cand == nil || !judgeOK {
+			return nil, false, false
+		}
+		return cand, hs, true
+	}
+	var cands []ast.Expr
+	for _, b := range g.CFG.Blocks {
+		for si := range b.Succs {
+			if b.Live && len(b.Succs) == 2 {
+				for _, f := range edgeFacts(g, b, si) {
+					if cd, _, ok := judged(dfs, f, 0); ok {
+						cands = append(cands, cd)
+					}
+				}
+			}
+		}
+	}
+	if len(cands) == 0 {
+		c.Undecidedf("R4.range", "pickSuffixDfs/slot-of-candidate", dfs.Decl.Pos(), "cannot find the range predicate being asked about redis.GetSlot(candidate)")
+	} else {
 		n := 0
 		for _, p := range g.Points(func(n ast.Node) bool {
 			r, ok := n.(*ast.ReturnStmt)
@@ -232,29 +359,30 @@ func checkpointKey(c *core.Ctx) {
 		}) {
 			n++
 			r := p.Node().(*ast.ReturnStmt)
-			ret, cand := strip(dinfo, r.Results[1]), strip(dinfo, bd["_cand"].(ast.Expr))
+			ret := strip(dinfo, r.Results[1])
+			same, differs := false, false
+			var cand ast.Expr
+			for _, cd := range cands {
+				cand = strip(dinfo, cd)
+				if pat.Same(dinfo, ret, cand) {
+					same = true
+				} else if objOf(dinfo, ret) == nil && objOf(dinfo, cand) != nil && mentions(dinfo, ret, objOf(dinfo, cand)) {
+					differs = true
+				}
+			}
 			switch {
-			case pat.Same(dinfo, ret, cand):
-				c.Okf("R4.range", "pickSuffixDfs/slot-of-candidate", r.Pos(), "the string returned is the one whose slot was computed (%s)", c.Src(cand))
-			case objOf(dinfo, ret) == nil && objOf(dinfo, cand) != nil && mentions(dinfo, ret, objOf(dinfo, cand)):
+			case same:
+				c.Okf("R4.range", "pickSuffixDfs/slot-of-candidate", r.Pos(), "the string returned is the one whose slot was computed (%s)", c.Src(ret))
+			case differs:
 				c.Check("R4.range", "pickSuffixDfs/slot-of-candidate", r.Pos(), false,
 					fmt.Sprintf("the string returned as checkpoint key (%s) is a different function of the candidate than the one whose slot was computed (%s): the checkpoint may live on another shard than the data it describes", c.Src(r.Results[1]), c.Src(cand)))
 			default:
 				c.Undecidedf("R4.range", "pickSuffixDfs/slot-of-candidate", r.Pos(), "cannot relate the returned string %s to the candidate %s", c.Src(ret), c.Src(cand))
 			}
-			okJ := false
-			if judgeParam != nil {
-				b2 := pat.Binds{"_j": judgeParam, "_slot": bd["_slot"]}
-				okJ, _ = onlyVia(g, p, func(f cfgq.Fact) bool {
-					return f.Val && (pat.Expr("_j(int(_slot))").Match(dinfo, f.Expr, b2) != nil || pat.Expr("_j(_slot)").Match(dinfo, f.Expr, b2) != nil)
-				})
-			}
+			okJ, _ := onlyVia(g, p, func(f cfgq.Fact) bool { _, sn, ok := judged(dfs, f, 0); return ok && sn })
 			inverted := false
-			if judgeParam != nil && !okJ {
-				b2 := pat.Binds{"_j": judgeParam, "_slot": bd["_slot"]}
-				inverted, _ = onlyVia(g, p, func(f cfgq.Fact) bool {
-					return !f.Val && (pat.Expr("_j(int(_slot))").Match(dinfo, f.Expr, b2) != nil || pat.Expr("_j(_slot)").Match(dinfo, f.Expr, b2) != nil)
-				})
+			if !okJ {
+				inverted, _ = onlyVia(g, p, func(f cfgq.Fact) bool { _, sn, ok := judged(dfs, f, 0); return ok && !sn })
 			}
 			if inverted {
 				c.Check("R4.range", "pickSuffixDfs/accept-iff-judge", r.Pos(), false, "a candidate is returned exactly when the range predicate REJECTED its slot: the checkpoint key hashes outside the shard's slot range")
@@ -421,24 +549,56 @@ func latencyKey(c *core.Ctx, crcFn *core.Fn) {
 	for _, f := range fn.Decl.Type.Params.List {
 		params = append(params, f.Names...)
 	}
-	calls := core.Calls(fn.Decl.Body, info, func(_ *ast.CallExpr, o types.Object) bool { return o == crcFn.Obj })
-	if len(params) != 2 || len(calls) != 1 {
-		c.Undecidedf("R5.latency", "findKeyInRange/skeleton", fn.Decl.Pos(), "expected (min, max) and one crc16 call")
+	// slotOf: e is `crc16(cand) <reduced>` or a same-package helper h(cand) returning that
+	var slotOf func(e ast.Expr, depth int) ast.Expr
+	slotOf = func(e ast.Expr, depth int) ast.Expr {
+		e = strip(info, e)
+		if be, ok := e.(*ast.BinaryExpr); ok {
+			for _, side := range []ast.Expr{be.X, be.Y} {
+				if call, ok := ast.Unparen(side).(*ast.CallExpr); ok && core.CalleeFunc(info, call) == crcFn.Obj && len(call.Args) == 1 {
+					return call.Args[0]
+				}
+			}
+			return nil
+		}
+		call, ok := e.(*ast.CallExpr)
+		hfn := core.CalleeFunc(info, orCallExpr(call))
+		if !ok || depth > 0 || hfn == nil || hfn.Pkg() != fn.Obj.Pkg() || len(call.Args) != 1 {
+			return nil
+		}
+		hf := c.FnOf(hfn)
+		if hf == nil || hf.Decl.Body == nil || len(hf.Decl.Body.List) != 1 {
+			return nil
+		}
+		r, isRet := hf.Decl.Body.List[0].(*ast.ReturnStmt)
+		if !isRet || len(r.Results) != 1 {
+			return nil
+		}
+		if inner := slotOf(r.Results[0], depth+1); inner != nil && objOf(info, strip(info, inner)) == types.Object(hfn.Type().(*types.Signature).Params().At(0)) {
+			return call.Args[0]
+		}
+		return nil
+	}
+	if len(params) != 2 {
+		c.Undecidedf("R5.latency", "findKeyInRange/skeleton", fn.Decl.Pos(), "expected (min, max)")
 		return
 	}
-	cand := calls[0].Args[0]
-	// the variable holding the slot
+	var cand ast.Expr
 	var slotVar *ast.Ident
+	nslot := 0
 	ast.Inspect(fn.Decl.Body, func(n ast.Node) bool {
 		if as, ok := n.(*ast.AssignStmt); ok && len(as.Lhs) == 1 && len(as.Rhs) == 1 {
-			if be, ok := strip(info, as.Rhs[0]).(*ast.BinaryExpr); ok && (ast.Unparen(be.X) == ast.Expr(calls[0]) || ast.Unparen(be.Y) == ast.Expr(calls[0])) {
-				slotVar, _ = as.Lhs[0].(*ast.Ident)
+			if cd := slotOf(as.Rhs[0], 0); cd != nil {
+				if id, ok := as.Lhs[0].(*ast.Ident); ok {
+					slotVar, cand = id, cd
+					nslot++
+				}
 			}
 		}
 		return true
 	})
-	if slotVar == nil {
-		c.Undecidedf("R5.latency", "findKeyInRange/skeleton", fn.Decl.Pos(), "cannot find the variable holding the candidate's slot")
+	if slotVar == nil || nslot != 1 {
+		c.Undecidedf("R5.latency", "findKeyInRange/skeleton", fn.Decl.Pos(), "cannot find the variable holding the candidate's slot (crc16 of the candidate, reduced, here or in a one-line helper)")
 		return
 	}
 	g := cfgq.Of(c.Program, fn)
